@@ -59,6 +59,32 @@ func framePool(seed uint64) [][]byte {
 		}
 		pool = append(pool, ref.Frame(p))
 	}
+	// MSM frames whose cell masks are the same bit string although their shapes
+	// (satellites x signals) differ
+	for _, t := range []int{1074, 1077, 1087, 1124} {
+		for _, sh := range [][2]int{{2, 3}, {3, 2}, {6, 2}, {4, 3}, {3, 4}, {2, 6}, {12, 1}, {1, 12}} {
+			for _, pat := range []int{0, 1} {
+				m := &ref.MSM{Type: t, StationID: uint(r.Intn(4096)), Timestamp: uint(r.Range(1, 80000000)), CellsSent: -1}
+				for i := 0; i < sh[0]; i++ {
+					m.SatMask |= uint64(1) << uint(63-2*i)
+					m.Sats = append(m.Sats, ref.Sat{Whole: uint(60 + r.Intn(30)), Frac: uint(r.Intn(1024)), Ext: uint(r.Intn(16)), Rate: r.Range(-500, 500)})
+				}
+				for i := 0; i < sh[1]; i++ {
+					m.SigMask |= uint32(1) << uint(30-2*i)
+				}
+				for c := 0; c < sh[0]*sh[1]; c++ {
+					on := pat == 0 || c%3 != 2 // all ones, or 110110...
+					m.CellMask = append(m.CellMask, on)
+					if on {
+						m.Sigs = append(m.Sigs, ref.Sig{RangeDelta: r.Range(-1000, 1000), PhaseDelta: r.Range(-1000, 1000), Lock: uint(r.Intn(16)), CNR: uint(1 + r.Intn(60)), RateDelta: r.Range(-100, 100)})
+					}
+				}
+				if p := ref.EncodeMSM(m); len(p) <= 1023 {
+					pool = append(pool, ref.Frame(p))
+				}
+			}
+		}
+	}
 	for i := 0; i < 30; i++ {
 		t := 1005 + i%2
 		p := ref.EncodeBase(gen.RandBase(r, t), t)
